@@ -627,6 +627,34 @@ pub fn run(tier: Tier) -> BResult {
     let mut a_trans = 0u64;
     let mut a_execs = 0u64;
     let mut a_caps = Vec::new();
+    // two threads add the same signal to one instance: still one wake byte per delivery, none after the end
+    {
+        let name = "two_threads_add_same_signal_one_byte_per_delivery";
+        let sc = super::c12::sched_part::build(name, false);
+        let cfg = crate::explore::Config { property: "C13".into(), bound: Some(if tier == Tier::Quick { 2 } else { 3 }), max_wall: Duration::from_secs(if tier == Tier::Quick { 25 } else { 600 }), workers: crate::props::workers_for(4), hang_secs: 30 };
+        match crate::explore::explore(&sc, &cfg) {
+            Ok(sum) => {
+                eprintln!("[C13] schedules {:<44} bound={:?} execs={} states={} steps={} distinct={}{}", name, cfg.bound, sum.stats.executions, sum.stats.states, sum.stats.transitions, sum.stats.digests.len(), if sum.stats.capped { " CAPPED" } else { "" });
+                a_states += sum.stats.states;
+                a_trans += sum.stats.transitions;
+                a_execs += sum.stats.executions;
+                if sum.stats.capped {
+                    a_caps.push(json!({"scenario": name, "cap": "wall-clock"}));
+                }
+                *classes.entry(format!("schedules:{}", name)).or_insert(0) += sum.stats.executions;
+                for v in sum.violations {
+                    let cl = crate::explore::class_of(&v.message);
+                    if cl == "engine" {
+                        violations.push(BViolation { message: format!("engine: {}", v.message), case: json!({"scenario": name}) });
+                    } else if cl == "C12" || cl == "C13" || cl == "crash" || cl == "hung" {
+                        // the scenario's oracle counts wake attempts per delivery - C13's clause as much as C12's
+                        violations.push(BViolation { message: format!("C13: {} [schedule replay: {}]", v.message.trim_start_matches("C12: "), v.replay), case: json!({"scenario": name, "engine": "sigsched", "choices": v.choices}) });
+                    }
+                }
+            }
+            Err(er) => violations.push(BViolation { message: format!("engine: {}", er), case: json!({"scenario": name}) }),
+        }
+    }
     for (name, handle_first) in [("owners_go_away_vs_deliveries", 0u8), ("owners_go_away_handle_first_vs_deliveries", 1), ("register_raw_full_blocking_pipe_vs_deliveries", 2)] {
         if handle_first == 2 {
             let sc = sched_part2::build(name);
@@ -689,7 +717,7 @@ pub fn run(tier: Tier) -> BResult {
         violations,
         exhaustive: a_caps.is_empty(),
         caps: a_caps,
-        rule: format!("schedules: the action of a registered pipe is removed and an iterator instance and its last handle are dropped (both orders) while the signal is delivered from another thread and nested at every operation boundary of the teardown - every wake attempt must hit an open descriptor, and none happens once the owners are gone; a completely full pipe in blocking mode is handed to register_raw while the signal is delivered from another thread and nested at every boundary of the registration - no wake attempt may meet a full pipe that is still blocking; every choice vector within the deviation bound on the real code; grid: complete grid descriptor kind {{pipe, unix stream, unix datagram}} x fill level {{empty, nearly full, completely full}} x burst {:?} x entry {{register_raw, register}} + 5 ownership histories per kind (register/deliver/unregister; rejected: forbidden, OS-refused, fd -1, closed number; then a sentinel on the freed number while the library keeps being used) + 4 histories of a write end handed to SignalDelivery::with_pipe (list refused by the OS / by panic after an accepted signal; accepted list then drop); each cell in a forked child with a watchdog", bursts),
+        rule: format!("schedules: the action of a registered pipe is removed and an iterator instance and its last handle are dropped (both orders) while the signal is delivered from another thread and nested at every operation boundary of the teardown - every wake attempt must hit an open descriptor, and none happens once the owners are gone; a completely full pipe in blocking mode is handed to register_raw while the signal is delivered from another thread and nested at every boundary of the registration - no wake attempt may meet a full pipe that is still blocking; two threads add the same signal through handle clones - a delivery still makes exactly one wake attempt and none once everything is gone; every choice vector within the deviation bound on the real code; grid: complete grid descriptor kind {{pipe, unix stream, unix datagram}} x fill level {{empty, nearly full, completely full}} x burst {:?} x entry {{register_raw, register}} + 5 ownership histories per kind (register/deliver/unregister; rejected: forbidden, OS-refused, fd -1, closed number; then a sentinel on the freed number while the library keeps being used) + 4 histories of a write end handed to SignalDelivery::with_pipe (list refused by the OS / by panic after an accepted signal; accepted list then drop); each cell in a forked child with a watchdog", bursts),
         assumptions: vec!["wake attempts are counted through the cfg(sighook_verif) scheduling point in pipe::wake".into(), "pipe capacity reduced to one page with F_SETPIPE_SZ".into()],
     }
 }
